@@ -7,7 +7,8 @@
 (* ShardConfig records (shard_index, num_shards, start_index) that led to  *)
 (* it.  `ShardStep` is one call of SequenceDataSource.shard(i, k, off);    *)
 (* the interval arithmetic `Cut` is the transcription of io.py:61-77.      *)
-(* ShardedIterable's round-robin is `RoundRobin`.                          *)
+(* ShardedIterable's round-robin (nested, with a resume position) is       *)
+(* RRStep / RRResume.                                                      *)
 (*                                                                         *)
 (* Properties (C09): for every reachable source and every k the k shards   *)
 (* are pairwise disjoint, cover the source, are contiguous and ordered,    *)
@@ -43,19 +44,45 @@ ShardStep(i, k, off) ==
                            lo |-> lo', hi |-> hi', len |-> hi' - lo'])
   /\ UNCHANGED <<n, kind>>
 
-\* ShardedIterable.shard(i, k) replaces the config (no nesting), start index `from`
-\* models a restored DataIterator state.
-RRStep(i, k, from) ==
+\* ShardedIterable (kind "iter"): shard(i, k) of a source takes every k-th element of it, starting with its i-th
+\* (by rank in the source being sharded, so the k sub-shards partition THEIR PARENT); shards nest (chain).
+\* `lo` is the resume position: the absolute index in the underlying iterable below which nothing is delivered
+\* (DataIterator.state after some elements were consumed; kept by a later shard()).
+RankSel(S, i, k) == {x \in S : Cardinality({y \in S : y < x}) % k = i}
+RECURSIVE FullRR(_, _)
+FullRR(len, c) == IF c = <<>> THEN 0..(len - 1)
+                  ELSE RankSel(FullRR(len, SubSeq(c, 1, Len(c) - 1)), c[Len(c)].i, c[Len(c)].k)
+RRElems(len, c, from) == {j \in FullRR(len, c) : j >= from}
+\* the representation the code keeps: one flat (shard_index, num_shards) pair
+RECURSIVE FlatK(_)
+FlatK(c) == IF c = <<>> THEN 1 ELSE FlatK(SubSeq(c, 1, Len(c) - 1)) * c[Len(c)].k
+RECURSIVE FlatI(_)
+FlatI(c) == IF c = <<>> THEN 0 ELSE FlatI(SubSeq(c, 1, Len(c) - 1)) + c[Len(c)].i * FlatK(SubSeq(c, 1, Len(c) - 1))
+
+RRStep(i, k) ==
   /\ kind = "iter"
-  /\ chain = <<>>
-  /\ chain' = <<[i |-> i, k |-> k, off |-> from]>>
-  /\ hist' = Append(hist, [op |-> "rr", i |-> i, k |-> k, off |-> from,
-                           elems |-> RoundRobin(n, i, k, from)])
+  /\ Len(chain) < MaxDepth /\ Len(hist) < MaxDepth + 1
+  /\ chain' = Append(chain, [i |-> i, k |-> k, off |-> 0])
+  /\ hist' = Append(hist, [op |-> "rr", i |-> i, k |-> k, from |-> lo, fi |-> FlatI(chain'), fk |-> FlatK(chain'),
+                           elems |-> RRElems(n, chain', lo)])
   /\ UNCHANGED <<n, lo, hi, kind>>
+
+\* consume c elements of the current source, capture the iterator state, rebuild the source from it
+RRResume(c) ==
+  /\ kind = "iter" /\ c >= 1
+  /\ Len(hist) < MaxDepth + 1
+  /\ LET E == RRElems(n, chain, lo) IN
+     /\ c <= Cardinality(E)
+     /\ LET last == CHOOSE x \in E : Cardinality({y \in E : y < x}) = c - 1 IN
+        /\ lo' = last + 1
+        /\ hist' = Append(hist, [op |-> "resume", c |-> c, from |-> lo', fi |-> FlatI(chain), fk |-> FlatK(chain),
+                                 elems |-> RRElems(n, chain, lo')])
+  /\ UNCHANGED <<n, hi, chain, kind>>
 
 Next ==
   \/ \E k \in 1..MaxK : \E i \in 0..(k - 1) : \E off \in 0..MaxOff : ShardStep(i, k, off)
-  \/ \E k \in 1..MaxK : \E i \in 0..(k - 1) : \E from \in 0..MaxOff : RRStep(i, k, from)
+  \/ \E k \in 1..MaxK : \E i \in 0..(k - 1) : RRStep(i, k)
+  \/ \E c \in 1..(MaxOff + 1) : RRResume(c)
 
 Spec == Init /\ [][Next]_vars
 
@@ -75,16 +102,22 @@ Partition ==
             LET d == Cut(lo, hi, i, k)[2] - Cut(lo, hi, j, k)[2] IN d <= 1 /\ d >= -1
        /\ \A i \in 0..(k - 1) : Cut(lo, hi, i, k)[2] >= 0
 
+\* the k sub-shards of the current (possibly nested, possibly resumed) source partition exactly what it still delivers
 RoundRobinPartition ==
   kind = "iter" =>
   \A k \in 1..MaxK :
-    /\ UNION {RoundRobin(n, i, k, 0) : i \in 0..(k - 1)} = 0..(n - 1)
-    /\ \A i, j \in 0..(k - 1) : i # j => RoundRobin(n, i, k, 0) \cap RoundRobin(n, j, k, 0) = {}
+    LET S(i) == RRElems(n, Append(chain, [i |-> i, k |-> k, off |-> 0]), lo) IN
+    /\ UNION {S(i) : i \in 0..(k - 1)} = RRElems(n, chain, lo)
+    /\ \A i, j \in 0..(k - 1) : i # j => S(i) \cap S(j) = {}
+\* the flat pair the code keeps denotes the same elements as the nested definition
+RRClosedForm == kind = "iter" => FullRR(n, chain) = {j \in 0..(n - 1) : j % FlatK(chain) = FlatI(chain)}
+\* within one source lo never makes an element reappear
+RRWithin == kind = "iter" => (lo >= 0 /\ lo <= n)
 
 StateRoundTrip == kind = "seq" => FromChain(n, chain) = <<lo, hi>>
 
 \* ---------------------------------------------------------------- export
-Terminal == IF kind = "seq" THEN Len(chain) = MaxDepth ELSE chain # <<>>
+Terminal == IF kind = "seq" THEN Len(chain) = MaxDepth ELSE (chain # <<>> /\ Len(hist) >= 2)
 Emit == Terminal => PrintT(<<"H", ToJson([n |-> n, kind |-> kind, steps |-> hist])>>)
 View == <<n, lo, hi, chain, kind>>
 =============================================================================
